@@ -23,7 +23,7 @@ for pid in ids:
     })
 m = {
     "version": 1,
-    "setup_cmd": "cd /verif/engine && GOFLAGS=-mod=mod GOPROXY=off GOSUMDB=off GOTOOLCHAIN=local go build -o /verif/bin/symgo ./cmd/symgo",
+    "setup_cmd": "cd /verif/engine && GOFLAGS=-mod=mod GOPROXY=off GOSUMDB=off GOTOOLCHAIN=local go build -o /verif/bin/symgo ./cmd/symgo && GOFLAGS=-mod=mod GOPROXY=off GOSUMDB=off GOTOOLCHAIN=local go build -o /verif/bin/c20gen ./cmd/c20gen",
     "hooks": {"guard": "verif", "enable": "none needed: harnesses and stubs are go/packages overlays (virtual zz_verif_*.go files in the package directories); nothing in /repo is patched",
               "baseline_off_cmd": "bash -c 'for m in $(cat /w/out/gomods.txt); do MF=$(cd /repo/$m && . /w/out/goenv.sh && gomodflag); (cd /repo/$m && go test $MF -json -vet=off -count=1 -timeout 25m ./...); done'",
               "source_commits": [], "add_only": True},
